@@ -6,10 +6,12 @@ import (
 	"testing"
 
 	sdk "github.com/cosmos/cosmos-sdk/types"
+	ethcrypto "github.com/ethereum/go-ethereum/crypto"
 	"pgregory.net/rapid"
 
 	mtypes "github.com/MinterTeam/mhub2/module/x/mhub2/types"
 
+	"verifharness/bridge"
 	"verifharness/pbt"
 	"verifharness/sim"
 )
@@ -23,7 +25,7 @@ type AttVal struct {
 }
 
 type AttOp struct {
-	Kind    string `json:"kind"` // vote | alien | power | unbond | rebond | block
+	Kind    string `json:"kind"` // vote | alien | power | unbond | rebond | rekey | block
 	Val     int    `json:"val,omitempty"`
 	Chain   int    `json:"chain,omitempty"`
 	Via     int    `json:"via,omitempty"`   // 0 validator account, 1 orchestrator account
@@ -84,9 +86,13 @@ func genAttCase(t *rapid.T) interface{} {
 			op.Kind = "unbond"
 			op.Val = rapid.IntRange(0, n-1).Draw(t, "val")
 			op.Variant = rapid.SampledFrom([]int{0, 0, 0, 1}).Draw(t, "fully") // 1 = straight to Unbonded
-		case k < 80:
+		case k < 79:
 			op.Kind = "rebond"
 			op.Val = rapid.IntRange(0, n-1).Draw(t, "val")
+		case k < 83:
+			op.Kind = "rekey" // the validator registers a new orchestrator and external key (MsgDelegateKeys)
+			op.Val = rapid.IntRange(0, n-1).Draw(t, "val")
+			op.Chain = rapid.IntRange(0, len(attChains)-1).Draw(t, "chain")
 		default:
 			op.Kind = "block"
 		}
@@ -147,6 +153,15 @@ func runAttCaseObs(want string, obs func(h *sim.Hub, what string)) func(ci inter
 		}
 
 		nvals := len(c.Vals)
+		orchOf := map[string]sdk.AccAddress{} // chain|val -> currently registered orchestrator
+		rekeys := map[string]int{}
+		for vi, v := range c.Vals {
+			if v.HasOrch {
+				for _, ch := range attChains {
+					orchOf[fmt.Sprintf("%s|%d", ch, vi)] = sim.OrchAddr(vi)
+				}
+			}
+		}
 		lastByVal := map[string]uint64{} // chain|val -> last accepted nonce
 		voted := map[string]bool{}       // chain|val has an accepted claim
 		voters := map[nv]map[int]bool{}  // accepted votes
@@ -159,7 +174,7 @@ func runAttCaseObs(want string, obs func(h *sim.Hub, what string)) func(ci inter
 
 		endBlock := func() {
 			if err := h.End(); err != nil {
-				a.fail("C05", "blocker", "%v", err)
+				a.fail("C05", bridge.BlockerKey(err), "%v", err)
 				return
 			}
 			if obs != nil {
@@ -284,7 +299,7 @@ func runAttCaseObs(want string, obs func(h *sim.Hub, what string)) func(ci inter
 				height++
 				now += 5
 				if err := h.Begin(height, now); err != nil {
-					a.fail("C05", "blocker", "%v", err)
+					a.fail("C05", bridge.BlockerKey(err), "%v", err)
 				}
 			case "power":
 				v, p := op.Val%nvals, op.Power
@@ -311,6 +326,23 @@ func runAttCaseObs(want string, obs func(h *sim.Hub, what string)) func(ci inter
 				v := op.Val % nvals
 				h.QueueStaking(func(s *sim.SimStaking) { s.Vals[v].Bonded, s.Vals[v].Unbonding = true, false })
 				dirtySinceVote = true
+			case "rekey":
+				v := op.Val % nvals
+				ch := attChains[op.Chain%len(attChains)]
+				key := fmt.Sprintf("%s|%d", ch, v)
+				rekeys[key]++
+				ctx := h.Ctx()
+				acc := h.Acc.GetAccount(ctx, sdk.AccAddress(sim.ValAddr(v)))
+				seq := acc.GetSequence()
+				bz := h.Cdc.MustMarshal(&mtypes.DelegateKeysSignMsg{ValidatorAddress: sim.ValAddr(v).String(), Nonce: seq})
+				sg, _ := mtypes.NewEthereumSignature(ethcrypto.Keccak256Hash(bz).Bytes(), sim.EthKey(v, ch, rekeys[key]))
+				acc.SetSequence(seq + 1)
+				h.Acc.SetAccount(ctx, acc)
+				no := sim.OrchAddr(1000 + 10*v + rekeys[key])
+				r := h.Deliver(&mtypes.MsgDelegateKeys{ValidatorAddress: sim.ValAddr(v).String(), OrchestratorAddress: no.String(), ExternalAddress: sim.EthAddr(v, ch, rekeys[key]).Hex(), EthSignature: sg, ChainId: ch})
+				if r.Err == nil {
+					orchOf[key] = no
+				}
 			case "alien":
 				ch := attChains[op.Chain%len(attChains)]
 				ev, _ := mtypes.PackEvent(attEvent(ch, lastObs[ch]+1, 0))
@@ -341,7 +373,11 @@ func runAttCaseObs(want string, obs func(h *sim.Hub, what string)) func(ci inter
 				signerOK := h.Staking.Vals[v].Bonded
 				if op.Via == 1 {
 					signer = sim.OrchAddr(v)
-					signerOK = signerOK && c.Vals[v].HasOrch
+					if o, ok := orchOf[key]; ok {
+						signer = o
+					}
+					_, has := orchOf[key]
+					signerOK = signerOK && has
 				}
 				ev, _ := mtypes.PackEvent(attEvent(ch, nonce, op.Variant))
 				before := ""
@@ -360,7 +396,7 @@ func runAttCaseObs(want string, obs func(h *sim.Hub, what string)) func(ci inter
 				if !signerOK {
 					rejected++
 					if ok {
-						a.fail("C02", "unbonded-vote-accepted", "claim signed by %s (bonded=%v, orchestrator registered=%v, via=%d) was accepted", signer, h.Staking.Vals[v].Bonded, c.Vals[v].HasOrch, op.Via)
+						a.fail("C02", "unbonded-vote-accepted", "claim signed by %s (bonded=%v, orchestrator registered=%v, via=%d) was accepted", signer, h.Staking.Vals[v].Bonded, orchOf[key] != nil, op.Via)
 					} else if h.StateHash() != before {
 						a.fail("C02", "rejected-vote-wrote", "rejected claim changed state")
 					}
